@@ -352,6 +352,7 @@ def deser(ctx):
 
 @PROP.obligation('C05.parse-fields', canaries=[
     mut.replace_expr('keys', 'Address.parse', "addr_dict['witver'] or 0", '0', 'witness version of a parsed address dropped'),
+    mut.replace_stmt('keys', 'Address.parse', 'if network is None:', "network = addr_dict['network']", 'explicit network argument replaced by the decoded one'),
 ])
 def parse_fields(ctx):
     """Address.parse hands every decoded field of deserialize_address to the Address it returns: payload, prefix, script type, witness type,
@@ -384,6 +385,18 @@ def parse_fields(ctx):
     consts = [s_ for s_ in subterms(('w', kw.get('network'))) if (isinstance(s_, str) and s_ not in ('decoded', 'network', 'cond', 'not', 'bool', 'or', 'and')) or (isinstance(s_, tuple) and s_ and s_[0] == 'global')]
     ctx.require(not consts, q, 'the network of the parsed address can fall back to %s when the address belongs to no known network' % [show(c) for c in consts][:2], fn,
                 'a checksum-valid string with an unknown version byte / prefix parses as a bitcoin address')
+    # an explicit network argument is kept: bech32 prefixes are shared (tb: testnet / testnet4 / signet, ltc: litecoin / litecoin_legacy)
+    # and the decoder reports the first network of the family, whatever the caller named
+    it = Interp(ctx.repo, 'keys', hooks=hooks, self_cls='keys:Address')
+    exits = it.run_function(fn, {'cls': S(('global', 'Address')), 'address': S(('var', 'address'), 'str'), 'encoding': 'bech32', 'network': S(('var', 'network'), 'str')})
+    rets = [e for e in exits if e.kind == 'return']
+    if not rets:
+        ctx.undecided('Address.parse(network=...): no return')
+    t2 = term(rets[-1].value)
+    nw = dict(t2[3]).get('network') if isinstance(t2, tuple) and t2[0] == 'call' and t2[1] == 'Address' else None
+    ctx.saw('Address.parse(address, network=N) builds Address(network=%s)' % show(nw)[:80])
+    ctx.require(nw == ('var', 'network'), q, 'with an explicit network argument the parsed Address gets network=%s' % show(nw)[:100], fn,
+                'Address.parse(<tb1... address>, network="signet") is relabelled testnet: Transaction(network="signet").add_output(value, that address) raises, Output adopts the other network')
 
 
 @PROP.obligation('C05.bare-program', canaries=[
@@ -532,3 +545,51 @@ def witver(ctx):
         k = carrier[0]
         ctx.require(k == 'sigs_required' and 'sig_n_and_m.pop()' in body and 'self.sigs_required' in unparse(fn), qo,
                     'the witness version is passed as `%s`, which does not instantiate the OP_n element of the template' % k, calls[0])
+
+
+@PROP.obligation('C05.hash-defaults', canaries=[
+    mut.replace_stmt('transactions', 'Output.__init__', "self.script_type = 'p2pkh'", "self.script_type = 'p2pkh' if self.witness_type == 'legacy' else 'p2wpkh'", 'script type of a bare hash follows the witness type argument instead of the encoding'),
+])
+def hash_defaults(ctx):
+    """Output.__init__ evaluated as a whole for a destination given as a bare public-key hash: the script type and the encoding it ends
+    with belong together for every way of selecting the form (encoding='base58' / 'bech32' / none, witness_type legacy / segwit / none):
+    base58 -> p2pkh, bech32 -> p2wpkh. Otherwise the output carries the script of one form and reports the address of the other."""
+    q = 'transactions:Output.__init__'
+    fn = ctx.repo.func(q)
+    a = fn.args
+    names = [x.arg for x in a.args]
+    defaults = {}
+    for n_, d in zip(names[len(names) - len(a.defaults):], a.defaults):
+        try:
+            defaults[n_] = ast.literal_eval(d)
+        except Exception:
+            defaults[n_] = S(('var', n_))
+
+    def decide(t):
+        # parsing an empty locking script yields no script type
+        if isinstance(t, tuple) and t and t[0] == 'mcall' and t[2] == 'parse_bytes' and t[3] and t[3][0] == b'':
+            return False
+        return None
+    n = 0
+    for enc, wt in (('base58', None), ('bech32', None), (None, None), ('base58', 'legacy'), (None, 'legacy'), (None, 'segwit'), ('bech32', 'segwit')):
+        args = dict(defaults)
+        args.update({'self': S(SELF), 'value': 1000, 'public_hash': S(('var', 'h'), 'bytes'), 'encoding': enc, 'witness_type': wt, 'strict': False, 'network': S(('var', 'network'))})
+        it = Interp(ctx.repo, 'transactions', hooks=LAYOUT_HOOKS, self_cls='transactions:Output', decide=decide)
+        try:
+            exits = it.run_function(fn, args)
+        except AnalysisError as e:
+            ctx.undecided('Output.__init__(public_hash, encoding=%r, witness_type=%r) not evaluable: %s' % (enc, wt, str(e)[:80]))
+        rets = [e for e in exits if e.kind == 'return']
+        if len(rets) != 1:
+            ctx.undecided('Output.__init__(public_hash, encoding=%r, witness_type=%r): %d normal exits' % (enc, wt, len(rets)))
+        st_, en_ = term(rets[0].heap.get(A(SELF, 'script_type'))), term(rets[0].heap.get(A(SELF, 'encoding')))
+        n += 1
+        ctx.saw('public_hash, encoding=%s, witness_type=%s -> script type %s, encoding %s' % (enc, wt, show(st_)[:40], show(en_)[:40]))
+        if not (isinstance(st_, str) and isinstance(en_, str)):
+            ctx.undecided('Output.__init__(public_hash, encoding=%r, witness_type=%r): script type %s / encoding %s not decided' % (enc, wt, show(st_)[:60], show(en_)[:60]))
+        ok = (en_ == 'base58' and st_ == 'p2pkh') or (en_ == 'bech32' and st_ == 'p2wpkh')
+        ctx.require(ok, q, 'a bare hash with encoding=%r, witness_type=%r becomes a %s script with %s address encoding' % (enc, wt, st_, en_), fn,
+                    'add_output(value, public_hash=h, encoding="base58") carries the script 0014<h> but reports the base58 P2PKH address: script and address are no longer inverse')
+        if enc is not None:
+            ctx.require(en_ == enc, q, 'the encoding asked for (%r) is replaced by %r' % (enc, en_), fn)
+    ctx.floor(n, 7, 'form selections')
